@@ -36,7 +36,7 @@ for vf in sorted(glob.glob(ROOT + '/*/out/m*.validated.json')):
             'builds': v['builds'], 'existing_suite_passes_with_change': v['suite_passes_with_mutant'],
             'demo_fails_with_change': v['demo_fails_with_mutant'], 'demo_passes_without_change': v['demo_passes_without_mutant'],
         },
-        'round': 2 if OFFSET else 1,
+        'round': int(os.environ.get('ROUND', 2 if OFFSET else 1)),
         'caught_by_checks': matrix.get((pid, k), []),
         'caught_by_own_property_check': pid in matrix.get((pid, k), []),
         'checked_with': 'tools/matrix.sh (scratch worktree + ./bin/sa check-all)',
